@@ -133,3 +133,392 @@ func exprText(e ast.Expr) string {
 	}
 	return types.ExprString(e)
 }
+
+// ResidueVerbatim decides RESIDUE-VERBATIM on NewOrigin and (*Origin).Bytes:
+// the two conversions between residues and ORIGIN block move the residues
+// without looking at them. Every store into the buffer under construction is a
+// constant (blank, newline), the index text, or bytes of the source taken as
+// they are. A conversion that rewrites residues on the way (case folding, a
+// filter) is no longer undone by the opposite one - and since (*Origin).Bytes
+// switches a shared *Origin from "text as read" to "re-encode on demand", the
+// difference shows in a record that was merely passed to an operation.
+func ResidueVerbatim(p *core.Prog, r *core.Report) {
+	r.Rule("RESIDUE-VERBATIM", "in seqio.NewOrigin and (*Origin).Bytes every store into the buffer being built is a constant byte, formatted index text, or bytes of the source slice copied unchanged (copy(q[..], p[a:b]), q[k] = p[j], q[k] = v with v an unmodified range value over p)", 2)
+	info := p.Info(core.PkgSeqio)
+	for _, name := range []string{"NewOrigin", "Origin.Bytes"} {
+		fd := p.FuncDecl(core.PkgSeqio, name)
+		key := "seqio." + name
+		if fd == nil || fd.Body == nil {
+			r.Und("RESIDUE-VERBATIM", key+"|anchor", "-", "anchor-unresolved")
+			continue
+		}
+		asg := core.Assigns(info, fd.Body)
+		params := map[types.Object]bool{}
+		for _, f := range fd.Type.Params.List {
+			for _, nm := range f.Names {
+				params[info.Defs[nm]] = true
+			}
+		}
+		// the buffer under construction: the local made with make([]byte, ..)
+		dst := map[types.Object]bool{}
+		for o, as := range asg {
+			for _, a := range as {
+				if c, ok := a.RHS.(*ast.CallExpr); ok && core.IsBuiltin(info, c, "make") {
+					if _, isSlice := info.TypeOf(c).Underlying().(*types.Slice); isSlice {
+						dst[o] = true
+					}
+				}
+			}
+		}
+		base := func(e ast.Expr) types.Object {
+			for {
+				switch x := ast.Unparen(e).(type) {
+				case *ast.SliceExpr:
+					e = x.X
+				case *ast.IndexExpr:
+					e = x.X
+				default:
+					return core.ObjOf(info, e)
+				}
+			}
+		}
+		isSource := func(e ast.Expr) bool {
+			e = ast.Unparen(e)
+			if t := info.TypeOf(e); t != nil {
+				if b, ok := t.Underlying().(*types.Basic); ok && b.Info()&types.IsString != 0 {
+					// the index text: a string produced by fmt.Sprintf / strconv of an integer
+					o := core.Origin(info, asg, e)
+					if c, ok := ast.Unparen(o).(*ast.CallExpr); ok && core.IsCallTo(info, c, "fmt.Sprintf", "strconv.Itoa", "strconv.FormatInt") {
+						return true
+					}
+					if _, isConst := core.ConstString(info, e); isConst {
+						return true
+					}
+					return false
+				}
+			}
+			b := base(e)
+			if b == nil {
+				// o.Buffer read directly
+				if se, ok := ast.Unparen(core.Origin(info, asg, stripIndex(e))).(*ast.SelectorExpr); ok && se.Sel.Name == "Buffer" {
+					return true
+				}
+				return false
+			}
+			if dst[b] {
+				return false
+			}
+			if params[b] {
+				return true
+			}
+			// a local that only ever names the receiver's buffer or a parameter
+			defs := asg[b]
+			if len(defs) == 0 {
+				return false
+			}
+			for _, d := range defs {
+				if d.RHS == nil {
+					return false
+				}
+				if se, ok := ast.Unparen(d.RHS).(*ast.SelectorExpr); ok && se.Sel.Name == "Buffer" {
+					continue
+				}
+				if params[core.ObjOf(info, d.RHS)] {
+					continue
+				}
+				return false
+			}
+			return true
+		}
+		bad, n := false, 0
+		ast.Inspect(fd.Body, func(nd ast.Node) bool {
+			switch x := nd.(type) {
+			case *ast.CallExpr:
+				if core.IsBuiltin(info, x, "copy") && len(x.Args) == 2 && dst[base(x.Args[0])] {
+					n++
+					if !isSource(x.Args[1]) {
+						bad = true
+						r.Bad("RESIDUE-VERBATIM", fmt.Sprintf("%s|store#%d", key, n), p.Pos(x.Pos()), fmt.Sprintf("`%s` copies something other than bytes of the source or the index text into the buffer", types.ExprString(x)))
+					}
+				}
+			case *ast.AssignStmt:
+				for i, l := range x.Lhs {
+					ix, ok := ast.Unparen(l).(*ast.IndexExpr)
+					if !ok || !dst[core.ObjOf(info, ix.X)] || i >= len(x.Rhs) {
+						continue
+					}
+					n++
+					rhs := x.Rhs[i]
+					if _, isConst := core.ConstInt(info, rhs); isConst {
+						continue
+					}
+					if rix, ok := ast.Unparen(rhs).(*ast.IndexExpr); ok && isSource(rix) {
+						continue
+					}
+					if o := core.ObjOf(info, rhs); o != nil {
+						defs := asg[o]
+						if len(defs) == 1 {
+							if rs, ok := defs[0].Node.(*ast.RangeStmt); ok && defs[0].Idx == 1 && isSource(rs.X) {
+								continue
+							}
+						}
+					}
+					bad = true
+					r.Bad("RESIDUE-VERBATIM", fmt.Sprintf("%s|store#%d", key, n), p.Pos(x.Pos()), fmt.Sprintf("`%s` stores a byte that is neither a constant nor a byte of the source taken as it is: the residues are rewritten on their way into the block (folded to lower case, say), so converting to a block and back is no longer the identity, and a GenBank record whose residues were merely read by an operation is written out differently afterwards", types.ExprString(l)+" = "+types.ExprString(rhs)))
+				}
+			}
+			return true
+		})
+		if n == 0 {
+			r.Und("RESIDUE-VERBATIM", key, p.Pos(fd.Pos()), "no store into a buffer made in this function found")
+			continue
+		}
+		if !bad {
+			r.Ok("RESIDUE-VERBATIM", key, p.Pos(fd.Pos()), fmt.Sprintf("%d stores: constants, index text and unchanged source bytes", n))
+		}
+	}
+}
+
+func stripIndex(e ast.Expr) ast.Expr {
+	for {
+		switch x := ast.Unparen(e).(type) {
+		case *ast.SliceExpr:
+			e = x.X
+		case *ast.IndexExpr:
+			e = x.X
+		default:
+			return e
+		}
+	}
+}
+
+// FastFallback decides FAST-FALLBACK on makeGenbankOriginParser: the fast
+// validation of the ORIGIN block only ever says "canonical, take it as it is".
+// When it fails the block is read line by line, and only that reader's verdict
+// counts: validateOrigin rejects every block with CRLF line ends, trailing
+// blanks or any other layout the slow reader accepts, so returning its error
+// rejects records the other path reads (which blocks reach it depends on a
+// coincidence of sizes: with CRLF the window of toOriginLength(n) bytes ends on
+// a line feed for about one length in 77).
+func FastFallback(p *core.Prog, r *core.Report) {
+	r.Rule("FAST-FALLBACK", "in makeGenbankOriginParser every path on which validateOrigin reported an error runs the line-by-line parser (slowGenBankOriginParser) before the parser returns: the fast path accepts or stands aside, it never rejects", 1)
+	info := p.Info(core.PkgSeqio)
+	fd := p.FuncDecl(core.PkgSeqio, "makeGenbankOriginParser")
+	key := "seqio.makeGenbankOriginParser|fallback"
+	if fd == nil || fd.Body == nil {
+		r.Und("FAST-FALLBACK", key+"|anchor", "-", "anchor-unresolved")
+		return
+	}
+	// the innermost function literal that calls validateOrigin
+	var body *ast.BlockStmt
+	var vc *ast.CallExpr
+	ast.Inspect(fd.Body, func(n ast.Node) bool {
+		if fl, ok := n.(*ast.FuncLit); ok {
+			for _, c := range core.Calls(fl.Body) {
+				if core.IsCallTo(info, c, core.PkgSeqio+".validateOrigin") {
+					body, vc = fl.Body, c
+				}
+			}
+		}
+		return true
+	})
+	if vc == nil {
+		r.Und("FAST-FALLBACK", key, p.Pos(fd.Pos()), "no call of validateOrigin inside a parser function literal")
+		return
+	}
+	asg := core.Assigns(info, body)
+	par := core.Parents(body)
+	var errObj types.Object
+	if as, ok := par[ast.Node(vc)].(*ast.AssignStmt); ok && len(as.Lhs) == 1 {
+		errObj = core.ObjOf(info, as.Lhs[0])
+	}
+	isSlowRun := func(c *ast.CallExpr) bool {
+		// slowGenBankOriginParser(length)(state, result), or a variable holding its result called
+		if inner, ok := ast.Unparen(c.Fun).(*ast.CallExpr); ok && core.IsCallTo(info, inner, core.PkgSeqio+".slowGenBankOriginParser") {
+			return true
+		}
+		if o := core.ObjOf(info, c.Fun); o != nil {
+			for _, a := range asg[o] {
+				if rc, ok := a.RHS.(*ast.CallExpr); ok && core.IsCallTo(info, rc, core.PkgSeqio+".slowGenBankOriginParser") {
+					return true
+				}
+			}
+		}
+		// a method Parse on such a variable
+		if sel, ok := ast.Unparen(c.Fun).(*ast.SelectorExpr); ok {
+			if o := core.ObjOf(info, sel.X); o != nil {
+				for _, a := range asg[o] {
+					if rc, ok := a.RHS.(*ast.CallExpr); ok && core.IsCallTo(info, rc, core.PkgSeqio+".slowGenBankOriginParser") {
+						return true
+					}
+				}
+			}
+		}
+		return false
+	}
+	fl := core.NewFlow(info, body)
+	from := fl.Find(core.EnclosingStmt(par, vc))
+	if !from.Valid() {
+		// the call sits in the condition of an if: start at the entry
+		from = fl.Entry()
+	}
+	var badRet *ast.ReturnStmt
+	decided := false
+	// state: 0 = outcome of the validation unknown, 1 = it failed, 2 = it succeeded
+	core.Scan(fl, from, 0, core.Stepper[int]{
+		Node: func(s int, n ast.Node) (int, bool) {
+			for _, c := range core.NodeCalls(n) {
+				if isSlowRun(c) {
+					return s, true
+				}
+			}
+			if rs, ok := n.(*ast.ReturnStmt); ok {
+				if s == 1 && badRet == nil {
+					badRet = rs
+				}
+				return s, true
+			}
+			return s, false
+		},
+		Edge: func(s int, cond ast.Expr, taken bool) int {
+			core.Facts(cond, taken, func(atom ast.Expr, val bool) {
+				be, ok := ast.Unparen(atom).(*ast.BinaryExpr)
+				if !ok || (be.Op != token.EQL && be.Op != token.NEQ) || !core.IsNil(info, be.Y) {
+					return
+				}
+				isV := ast.Unparen(be.X) == ast.Expr(vc) || (errObj != nil && core.ObjOf(info, be.X) == errObj)
+				if !isV || s != 0 {
+					return
+				}
+				decided = true
+				if (be.Op == token.NEQ) == val {
+					s = 1
+				} else {
+					s = 2
+				}
+			})
+			return s
+		},
+	})
+	switch {
+	case !decided:
+		r.Und("FAST-FALLBACK", key, p.Pos(vc.Pos()), "no branch on the result of validateOrigin found")
+	case badRet != nil:
+		r.Bad("FAST-FALLBACK", key, p.Pos(badRet.Pos()), "a path on which validateOrigin failed returns without having run the line-by-line parser: the fast validator rejects every block that is not byte for byte canonical (CRLF line ends, trailing blanks), so whenever such a block is handed to it alone the record is refused although the slow path reads it (CRLF input of 721, 782, 843 ... residues, where the requested window happens to end on a line feed)")
+	default:
+		r.Ok("FAST-FALLBACK", key, p.Pos(vc.Pos()), "a failed validation always falls back to the line-by-line parser")
+	}
+}
+
+// SearchShortcut decides SEARCH-SHORTCUT on gts.Search and the helpers it
+// calls in package gts: an early "no hit" answer is justified by lengths alone
+// (an empty operand, a query longer than the sequence). A shortcut that looks
+// at the content - "the first residue of the query does not occur in ..." -
+// needs its window exactly right, and one byte short loses the hit at the last
+// possible offset (a query that matches the end of the sequence, or the whole
+// of it).
+func SearchShortcut(p *core.Prog, r *core.Report) {
+	r.Rule("SEARCH-SHORTCUT", "in gts.Search and the gts helpers that do its lookup every return of no hits in front of the lookup is guarded by comparisons of lengths only (len / Len / Bytes and arithmetic on them): no content-based pre-filter decides that there is no occurrence", 1)
+	info := p.Info(core.PkgGts)
+	fns := []*ast.FuncDecl{}
+	seen := map[*ast.FuncDecl]bool{}
+	var add func(name string)
+	add = func(name string) {
+		fd := p.FuncDecl(core.PkgGts, name)
+		if fd == nil || fd.Body == nil || seen[fd] {
+			return
+		}
+		seen[fd] = true
+		fns = append(fns, fd)
+		for _, c := range core.Calls(fd.Body) {
+			if fn := core.Callee(info, c); fn != nil && fn.Pkg() != nil && fn.Pkg().Path() == core.PkgGts && !fn.Exported() {
+				if sig, ok := fn.Type().(*types.Signature); ok && sig.Recv() == nil {
+					add(fn.Name())
+				}
+			}
+		}
+	}
+	add("Search")
+	if len(fns) == 0 {
+		r.Und("SEARCH-SHORTCUT", "gts.Search|anchor", "-", "anchor-unresolved")
+		return
+	}
+	for _, fd := range fns {
+		key := "gts." + fd.Name.Name
+		// only functions that return a slice (hits, indices)
+		if fd.Type.Results == nil || len(fd.Type.Results.List) != 1 {
+			continue
+		}
+		if _, isSlice := info.TypeOf(fd.Type.Results.List[0].Type).Underlying().(*types.Slice); !isSlice {
+			continue
+		}
+		if elem := info.TypeOf(fd.Type.Results.List[0].Type).Underlying().(*types.Slice).Elem(); types.TypeString(elem, nil) == "byte" {
+			continue // a byte transformer (the case fold), not a lookup
+		}
+		asg := core.Assigns(info, fd.Body)
+		par := core.Parents(fd.Body)
+		var lengthOnly func(e ast.Expr, depth int) (bool, string)
+		lengthOnly = func(e ast.Expr, depth int) (bool, string) {
+			ok, why := true, ""
+			ast.Inspect(e, func(n ast.Node) bool {
+				if !ok {
+					return false
+				}
+				switch x := n.(type) {
+				case *ast.CallExpr:
+					if core.IsBuiltin(info, x, "len") || core.IsCallTo(info, x, core.PkgGts+".Len") {
+						return false // whatever is measured, only its length is used
+					}
+					if fn := core.Callee(info, x); fn != nil && (fn.Name() == "Len") {
+						return false
+					}
+					ok, why = false, "`"+types.ExprString(x)+"`"
+				case *ast.IndexExpr, *ast.SliceExpr:
+					ok, why = false, "`"+types.ExprString(x.(ast.Expr))+"` (content of an operand)"
+				case *ast.Ident:
+					if o, isVar := info.Uses[x].(*types.Var); isVar && depth < 4 {
+						for _, a := range asg[o] {
+							if a.RHS == nil {
+								ok, why = false, "`"+x.Name+"`"
+								return false
+							}
+							if g, w := lengthOnly(a.RHS, depth+1); !g {
+								ok, why = false, w
+							}
+						}
+					}
+				}
+				return ok
+			})
+			return ok, why
+		}
+		n := 0
+		bad := false
+		for _, rs := range core.Returns(fd.Body) {
+			if len(rs.Results) != 1 {
+				continue
+			}
+			empty := core.IsNil(info, rs.Results[0])
+			if cl, ok := ast.Unparen(rs.Results[0]).(*ast.CompositeLit); ok && len(cl.Elts) == 0 {
+				empty = true
+			}
+			if !empty {
+				continue
+			}
+			n++
+			for m := par[ast.Node(rs)]; m != nil; m = par[m] {
+				is, ok := m.(*ast.IfStmt)
+				if !ok {
+					continue
+				}
+				if g, why := lengthOnly(is.Cond, 0); !g {
+					bad = true
+					r.Bad("SEARCH-SHORTCUT", fmt.Sprintf("%s|empty-return#%d", key, n), p.Pos(rs.Pos()), fmt.Sprintf("%s answers \"no hit\" under a condition that looks at %s, not only at lengths: a content-based shortcut in front of the lookup misses occurrences whenever its window is not exactly the set of viable offsets (Search(\"ccccat\", \"at\") and a query equal to the whole sequence find nothing when the window stops one byte short)", fd.Name.Name, why))
+				}
+			}
+		}
+		if !bad {
+			r.Ok("SEARCH-SHORTCUT", key, p.Pos(fd.Pos()), fmt.Sprintf("%d early empty answers, all decided by lengths", n))
+		}
+	}
+}
